@@ -191,6 +191,11 @@ def decorate(w, wn, s, rnd):
             js = [n["name"] for n in s["nodes"] if n["type"] == "J"]
             wn.add_control("rset_" + l["name"], C.Rule(C.ValueCondition(wn.get_node(js[0]), "pressure", "<", 25.0),
                                                         [C.ControlAction(link, "setting", l["setting"] * 1.5)], priority=2))
+    js = [n["name"] for n in s["nodes"] if n["type"] == "J"]
+    pipes = [l["name"] for l in s["links"] if l["type"] == "pipe"]
+    if pipes and rnd.random() < 0.8:          # simple controls conditioned on a junction pressure / a tank level
+        wn.add_control("cprs", C.Control(C.ValueCondition(wn.get_node(rnd.choice(js)), "pressure", rnd.choice(["<", ">"]), rnd.choice([12.5, 20.0, 35.0])),
+                                         C.ControlAction(wn.get_link(rnd.choice(pipes)), "status", w.network.LinkStatus.Closed)))
     for n in s["nodes"]:
         if n["type"] == "J" and rnd.random() < 0.3:
             wn.get_node(n["name"]).emitter_coefficient = rnd.choice([0.0001, 0.0005])
